@@ -128,6 +128,20 @@ def load_cases(ctx, mode='run', n=None, profile='default'):
     return [Case(k, v, model.get(k)) for k, v in impl.items()]
 
 
+def load_corpus(ctx, prop_id):
+    """minimised past failures (and seeds of interest) for this property; they run first"""
+    import glob
+    out = []
+    for f in sorted(glob.glob(os.path.join(vcheck.VERIF, 'corpus', prop_id, '*.case'))):
+        impl, model = harness_run(ctx, 'file', 0, extra=[f], tag='corpus-%s-%s' % (prop_id, os.path.basename(f)))
+        if impl is None:
+            continue
+        for k, v in impl.items():
+            c = Case(os.path.basename(f)[:-5] + '#' + k, v, model.get(k))
+            out.append(c)
+    return out
+
+
 def failing_fallible_before(case, idx):
     """is there a failing TerminalError earlier in the same invocation? (attribute to C07)"""
     for l in reversed(case.t[:idx + 1]):
@@ -207,7 +221,9 @@ def s7_prop(ctx, prop_id):
     ob, dis, details = proof_obligations(ctx, prop_id)
     cases = load_cases(ctx)
     if cases is not None:
-        s7_check(ctx, prop_id, cases)
+        corpus = load_corpus(ctx, prop_id)
+        ctx.cov['corpus_cases'] = len(corpus)
+        s7_check(ctx, prop_id, corpus + cases)
     ctx.assumptions += [
         'provider bodies are the harness\'s scripted bodies (any Beh in the theorem; scripted ones in the correspondence)',
         'Parallel wrappers: returned values are not propagated across inner() (documented limitation of Parallel)',
@@ -277,7 +293,9 @@ def c05(ctx):
     ob, dis, details = proof_obligations(ctx, 'C05')
     cases = load_cases(ctx)
     if cases is not None:
-        s7_check(ctx, 'C05', cases)
+        corpus = load_corpus(ctx, 'C05')
+        ctx.cov['corpus_cases'] = len(corpus)
+        s7_check(ctx, 'C05', corpus + cases)
         stage_stats(ctx, cases, s1_compare, 'S1', found=True)
         for c in cases:
             if c.ok:
